@@ -457,4 +457,82 @@ theorem convertEntries_no_crash {k : Kind} {c : Cfg} {ca : Nat → Option Addr} 
         exact this (by simpa [bind, Except.bind, h2] using h)
       | ok ws => simp [bind, Except.bind, h2, pure, Except.pure]
 
+/-! ## what the raw reader guarantees -/
+
+theorem parseRaw_fits (k : Kind) (c : Cfg) (f : Fmt) (bs : Bytes) (x : Entry) (rest : Bytes)
+    (h : parseRaw k c f bs = .ok (some x, rest)) : RawFits c x := by
+  cases x with
+  | pair b e d =>
+    cases f with
+    | bare =>
+      simp only [parseRaw] at h
+      obtain ⟨⟨b', r1⟩, h1, h⟩ := bind_ok_inv h
+      obtain ⟨⟨e', r2⟩, h2, h⟩ := bind_ok_inv h
+      have hb := (readAddress_value _ _ _ _ _ h1).2.2
+      have he := (readAddress_value _ _ _ _ _ h2).2.2
+      simp only at h
+      split at h
+      · simp at h
+      · split at h
+        · simp at h
+        · obtain ⟨⟨d', r3⟩, _, h⟩ := bind_ok_inv h
+          simp only [Out.pure_eq, Out.ok.injEq, Prod.mk.injEq, Option.some.injEq, Entry.pair.injEq] at h
+          obtain ⟨⟨rfl, rfl, _⟩, _⟩ := h
+          exact ⟨hb, he⟩
+    | coded =>
+      exfalso
+      simp only [parseRaw] at h
+      split at h
+      · simp at h
+      · split at h
+        all_goals (repeat' (first | (simp at h; done) | (obtain ⟨_, _, h⟩ := bind_ok_inv h) | (split at h)))
+  | _ => trivial
+
+theorem rawFuel_fits (k : Kind) (c : Cfg) (f : Fmt) : ∀ (n : Nat) (bs : Bytes) (evs : List (Ev Entry)),
+    rawFuel k c f n bs = .ok evs → ∀ x, Ev.item x ∈ evs → RawFits c x := by
+  intro n
+  induction n with
+  | zero => intro bs evs h; simp [rawFuel] at h
+  | succ n ih =>
+    intro bs evs h x hx
+    rw [rawFuel_succ] at h
+    split at h
+    · simp only [Out.ok.injEq] at h; subst h; simp at hx
+    · split at h
+      · rename_i y rest hp
+        obtain ⟨evs', h1, h2⟩ := bind_ok_inv h
+        simp only [Out.pure_eq, Out.ok.injEq] at h2
+        subst h2
+        simp only [List.mem_cons, Ev.item.injEq] at hx
+        rcases hx with rfl | hx
+        · exact parseRaw_fits k c f bs _ rest hp
+        · exact ih rest evs' h1 x hx
+      · simp only [Out.ok.injEq] at h; subst h; simp at hx
+      · simp only [Out.ok.injEq] at h; subst h; simp at hx
+      · cases h
+      · cases h
+
+/-- everything the raw iterator returns at an offset of a section has pair words of the address size -/
+theorem rawAt_fits (k : Kind) (c : Cfg) (dwo : Bool) (legacy v5 : Bytes) (offset : Nat)
+    (evs : List (Ev Entry)) (h : rawAt k c dwo legacy v5 offset = .ok evs) :
+    ∀ x, Ev.item x ∈ evs → RawFits c x := by
+  unfold rawAt at h
+  simp only at h
+  split at h <;> split at h
+  · cases h
+  · exact rawFuel_fits k c _ _ _ evs h
+  · cases h
+  · exact rawFuel_fits k c _ _ _ evs h
+
+theorem liftRead_ok {α : Type} {r : Out α} {a : α} (h : liftRead r = .ok a) : r = .ok a := by
+  cases r <;> simp_all [liftRead]
+
+theorem cookedAt_eq (k : Kind) (c : Cfg) (dwo : Bool) (legacy v5 : Bytes) (off base : Nat) (addr : Bytes)
+    (ab : Nat) :
+    cookedAt k c dwo legacy v5 off base addr ab =
+      (do let raw ← rawAt k c dwo legacy v5 off; cook c addr ab base raw) := by
+  unfold cookedAt rawAt cookedAll
+  simp only
+  split <;> split <;> simp
+
 end Gimli.ConvLists
